@@ -1,6 +1,7 @@
 package main
 
 import (
+	"slices"
 	"fmt"
 	"go/token"
 	"sort"
@@ -219,7 +220,8 @@ func c01Wrapper(c *Ctx, r *Report, p *Prov, rule string, wrapper string) {
 					if name, okN := elemFieldName(fa); okN && name == "Key" {
 						for _, ld := range *fa.Referrers() {
 							if lv, isV := ld.(ssa.Value); isV {
-								if ks := p.keysAt(lv, call.Block()); len(ks) == 1 && ks[0] == wrapper {
+								// (a case with several labels - `case "setQuerySettings", "removeQuerySettings":` - serves each of them)
+								if ks := p.keysAt(lv, call.Block()); len(ks) >= 1 && slices.Contains(ks, wrapper) && allIn(ks, commandWrappers) {
 									site, iterSite = call, true
 								}
 							}
@@ -1141,4 +1143,13 @@ func operatorMapDescentRule(c *Ctx, r *Report, rule string) {
 		}
 	}
 	r.Analysed["operator_map_descents"] = n
+}
+
+func allIn(xs, set []string) bool {
+	for _, x := range xs {
+		if !slices.Contains(set, x) {
+			return false
+		}
+	}
+	return true
 }
